@@ -140,6 +140,43 @@ func writesThroughReceiver(rel string, fd *ast.FuncDecl) []string {
 
 var receiverWrites = []string{}
 
+// ambientReads: every place where a function of the four packages reads the wall clock, the process zone, the
+// environment or the runtime (time.Now / Since / Until, time.Local, os.Getenv…, os.Hostname, os.Getwd, runtime.GOOS,
+// runtime.NumCPU / GOMAXPROCS, math/rand): what a call does may depend on the moment and the place only there.
+var ambientReads = []string{}
+
+var ambientNames = map[string]bool{
+	"time.Now": true, "time.Since": true, "time.Until": true, "time.Local": true,
+	"os.Getenv": true, "os.LookupEnv": true, "os.Environ": true, "os.Hostname": true, "os.Getwd": true, "os.Getpid": true, "os.Args": true,
+	"runtime.GOOS": true, "runtime.GOARCH": true, "runtime.NumCPU": true, "runtime.GOMAXPROCS": true, "runtime.NumGoroutine": true,
+}
+
+func readsAmbient(rel string, fd *ast.FuncDecl) []string {
+	if fd.Body == nil {
+		return nil
+	}
+	name := fd.Name.Name
+	if fd.Recv != nil && len(fd.Recv.List) == 1 {
+		name = strings.TrimPrefix(src(fd.Recv.List[0].Type), "*") + "." + name
+	}
+	seen := map[string]bool{}
+	out := []string{}
+	ast.Inspect(fd.Body, func(n ast.Node) bool {
+		if se, ok := n.(*ast.SelectorExpr); ok {
+			if x, ok := se.X.(*ast.Ident); ok {
+				q := x.Name + "." + se.Sel.Name
+				if (ambientNames[q] || x.Name == "rand") && !seen[q] {
+					seen[q] = true
+					out = append(out, rel+":"+name+": "+q)
+				}
+			}
+		}
+		return true
+	})
+	sort.Strings(out)
+	return out
+}
+
 func genSource(repo, out string) {
 	type entry struct{ name, hash, text string }
 	entries := []entry{}
@@ -178,6 +215,9 @@ func genSource(repo, out string) {
 				entries = append(entries, entry{name, fmt.Sprintf("%x", sum[:8]), text})
 				if fd, ok := d.(*ast.FuncDecl); ok && dir == "uhppote" {
 					receiverWrites = append(receiverWrites, writesThroughReceiver(rel, fd)...)
+				}
+				if fd, ok := d.(*ast.FuncDecl); ok {
+					ambientReads = append(ambientReads, readsAmbient(rel, fd)...)
 				}
 				// an operation of the regular shape  guards* ; request := messages.X{…} ; … sendto[T](…) …  is also
 				// entered in four parts, so that a property depends only on the part its model transcribes
@@ -257,6 +297,13 @@ func genSource(repo, out string) {
 	for i, w := range receiverWrites {
 		if i > 0 {
 			b.WriteString(", ")
+		}
+		b.WriteString(leanStr(w))
+	}
+	b.WriteString("]\n\n/-- every function that reads the wall clock, the process time zone, the environment or the runtime, with what it reads -/\ndef ambientReads : List String := [")
+	for i, w := range ambientReads {
+		if i > 0 {
+			b.WriteString(",\n  ")
 		}
 		b.WriteString(leanStr(w))
 	}
